@@ -155,12 +155,18 @@ func rqIssue(ctl *SourceControl, c rqCase, dir string, nsamp int) error {
 		}
 		return ctl.ConfigureTriggers(&FullTriggerState{ChannelIndices: []int{0}, TriggerState: ts}, &ok)
 	case "pulselengths":
-		so := map[string]SizeObject{"valid": {Nsamp: 50, Npre: 10}, "same": {Nsamp: nsamp, Npre: 10}, "zero": {Nsamp: 0, Npre: 0}, "negative": {Nsamp: -5, Npre: -1},
+		so := map[string]SizeObject{"nsamp-only": {Nsamp: ctl.status.Nsamples + 7, Npre: ctl.status.Npresamp}, "npre-only": {Nsamp: ctl.status.Nsamples, Npre: ctl.status.Npresamp + 2},
+			"both": {Nsamp: ctl.status.Nsamples + 9, Npre: ctl.status.Npresamp + 3}, "valid": {Nsamp: 50, Npre: 10}, "same": {Nsamp: nsamp, Npre: 10}, "zero": {Nsamp: 0, Npre: 0}, "negative": {Nsamp: -5, Npre: -1},
 			"pre-ge-samp": {Nsamp: 10, Npre: 10}, "pre-too-small": {Nsamp: 50, Npre: 1}, "huge": {Nsamp: 1 << 20, Npre: 100}}[c.Arg]
 		return ctl.ConfigurePulseLengths(so, &ok)
 	case "projectors":
+		if c.Arg == "current" || c.Arg == "current1" {
+			nsamp = ctl.status.Nsamples
+		}
 		pbo := ProjectorsBasisObject{ChannelIndex: 0, ProjectorsBase64: rqMatrix(3, nsamp), BasisBase64: rqMatrix(nsamp, 3), ModelDescription: "x"}
 		switch c.Arg {
+		case "current1":
+			pbo.ChannelIndex = 1
 		case "index-toolarge":
 			pbo.ChannelIndex = 2
 		case "index-negative":
@@ -385,6 +391,76 @@ func (r *rqRig) probe(running bool) vmap {
 	return out
 }
 
+// rqSequences: random sequences of individually valid requests on a running, triggering source: interactions between
+// requests (projectors then a length change, pause then label, ...) followed by data that exercises what they configured.
+func rqSequences(t *testing.T, base string, id *int) {
+	pool := []rqCase{{Kind: "trigger", Arg: "all"}, {Kind: "pulselengths", Arg: "nsamp-only"}, {Kind: "pulselengths", Arg: "npre-only"},
+		{Kind: "pulselengths", Arg: "both"}, {Kind: "pulselengths", Arg: "same"}, {Kind: "projectors", Arg: "current"}, {Kind: "projectors", Arg: "current1"},
+		{Kind: "writecontrol", Arg: "start"}, {Kind: "writecontrol", Arg: "stop"}, {Kind: "writecontrol", Arg: "pause"}, {Kind: "writecontrol", Arg: "unpause"},
+		{Kind: "statelabel", Arg: "valid"}, {Kind: "comment", Arg: "valid"}, {Kind: "grouptrigger", Arg: "valid"}, {Kind: "grouptrigger-del", Arg: "valid"},
+		{Kind: "stopcoupling", Arg: "x"}, {Kind: "rawblock", Arg: "valid"}, {Kind: "coupling", Arg: "off"}}
+	rng := vRng()
+	nseq := 60
+	if os.Getenv("VERIF_TIER") == "quick" {
+		nseq = 14
+	}
+	fixed := [][]rqCase{
+		{pool[5], pool[1], pool[0]}, {pool[5], pool[2], pool[0]}, {pool[6], pool[3], pool[0]}, {pool[7], pool[5], pool[1], pool[0]},
+		{pool[7], pool[9], pool[11], pool[10], pool[8]}, {pool[13], pool[0], pool[14], pool[15]},
+	}
+	for k := 0; k < nseq+len(fixed); k++ {
+		var seq []rqCase
+		if k < len(fixed) {
+			seq = fixed[k]
+		} else {
+			for j := 2 + rng.Intn(4); j > 0; j-- {
+				seq = append(seq, pool[rng.Intn(len(pool))])
+			}
+		}
+		*id++
+		dir := filepath.Join(base, fmt.Sprintf("rqs%d", *id))
+		os.MkdirAll(dir, 0775)
+		rig := rqNewRig(dir, false)
+		VRecover = func(name string, p any) {
+			rig.pmu.Lock()
+			rig.panics = append(rig.panics, fmt.Sprintf("%s: %v", name, p))
+			rig.pmu.Unlock()
+		}
+		if err := rig.start(); err != nil {
+			t.Fatal(err)
+		}
+		names := ""
+		for _, c := range seq {
+			names += c.Kind + ":" + c.Arg + " "
+		}
+		vEmit(vmap{"ev": "Case", "scen": *id, "timing": "running", "kind": "sequence", "arg": names, "expect": "any"})
+		allRet := true
+		lastErr := ""
+		ms := 0
+		for _, c := range seq {
+			ret, msg, m := rqCall(func() error { return rqIssue(rig.ctl, c, dir, rig.ctl.status.Nsamples) }, 2500*time.Millisecond)
+			ms += m
+			if !ret {
+				allRet = false
+				break
+			}
+			lastErr = msg
+		}
+		// make sure records flow through whatever was configured
+		if allRet {
+			ret, _, _ := rqCall(func() error { return rqIssue(rig.ctl, rqCase{Kind: "trigger", Arg: "all"}, dir, 0) }, 2500*time.Millisecond)
+			allRet = ret
+			time.Sleep(120 * time.Millisecond)
+		}
+		vEmit(vmap{"ev": "Ret", "returned": allRet, "err": lastErr, "ms": ms})
+		pr := rig.probe(true)
+		pr["ev"] = "Probe"
+		vEmit(pr)
+		vEmit(vmap{"ev": "CaseEnd", "stopped": rig.stop()})
+		close(rig.stopHB)
+	}
+}
+
 func TestVerifRequests(t *testing.T) {
 	base, err := os.MkdirTemp("", "verif_rq")
 	if err != nil {
@@ -479,4 +555,5 @@ func TestVerifRequests(t *testing.T) {
 			close(rig.stopHB)
 		}
 	}
+	rqSequences(t, base, &id)
 }
